@@ -271,7 +271,7 @@ PLAN["C02"] = {
               "rights (consistent with homes), en-passant target (behind a just-double-stepped pawn), clocks < 2^32, symbolic "
               "move coordinates restricted to pseudo-legal moves of a legal position; sequences by induction on the "
               "legal-position invariant (asserted on the successor of every legal move)",
-    "outside": ["clocks >= 2^32", "State::by_performing_moves on the *real* legal move list (the resolver's three-way match is decided on arbitrary lists of <= 2 moves instead)",
+    "outside": ["clocks >= 2^32", "State::by_performing_moves on the *real* legal move list (the resolver's three-way match is decided on arbitrary lists of 0, 1 and 2 moves instead)",
                 "moves that are not pseudo-legal in the position"],
     "trusted": ["rustc / kani-compiler / CBMC", "reference rules in harness/common/rules.rs"],
     "assumptions": ["position is a legal position (invariant of DESIGN §4.2)", "move is pseudo-legal per the reference rules"],
@@ -282,10 +282,18 @@ PLAN["C02"] = {
         Inst("c02::ep_without_target_is_refused", sub="C02.a", timeout=600, functions=("State::by_performing_move",), bounds="any position without ep target"),
         Inst("c02::coordinate_query", sub="C02.c", timeout=600, functions=("MoveQuery::by_moving_from_to", "MoveQuery::set_promotion", "MoveQuery::test"),
              bounds="any position, any pseudo-legal move, any coordinate triple"),
-        Inst("c02::resolver_applies_exactly_the_selected_move", sub="C02.c", unwind=9, timeout=3600, mem_gb=20,
+        Inst("c02::resolver_on_empty_list", sub="C02.c", unwind=9, nomem=True, timeout=3600, mem_gb=16,
              functions=("State::by_performing_moves", "MoveSet::filter", "MoveQuery::test", "State::by_performing_move"),
-             stubs=("MoveGenerator::compute_legal_moves -> an arbitrary list of <= 2 pseudo-legal moves of the position with their real successors (over-approximates every legal-move list of that size)",),
-             bounds="any legal position, any coordinate triple, any list of <= 2 candidate moves"),
+             stubs=("MoveGenerator::compute_legal_moves -> an arbitrary list of 0 pseudo-legal move(s) of the position with their real successors (over-approximates every legal-move list of that size)",),
+             bounds="any legal position, any coordinate triple, any list of 0 candidate move(s)"),
+        Inst("c02::resolver_on_one_move", sub="C02.c", unwind=9, nomem=True, timeout=3600, mem_gb=16,
+             functions=("State::by_performing_moves", "MoveSet::filter", "MoveQuery::test", "State::by_performing_move"),
+             stubs=("MoveGenerator::compute_legal_moves -> an arbitrary list of 1 pseudo-legal move(s) of the position with their real successors (over-approximates every legal-move list of that size)",),
+             bounds="any legal position, any coordinate triple, any list of 1 candidate move(s)"),
+        Inst("c02::resolver_on_two_moves", sub="C02.c", unwind=9, nomem=True, timeout=3600, mem_gb=24,
+             functions=("State::by_performing_moves", "MoveSet::filter", "MoveQuery::test", "State::by_performing_move"),
+             stubs=("MoveGenerator::compute_legal_moves -> an arbitrary list of 2 pseudo-legal move(s) of the position with their real successors (over-approximates every legal-move list of that size)",),
+             bounds="any legal position, any coordinate triple, any list of 2 candidate move(s)"),
         Inst("c02::reach_witness", sub="vacuity", timeout=600, expect="fail"),
     ],
 }
